@@ -7,6 +7,7 @@ run(tier, judge)    -> shards the programs over the pool; every shard generates 
 """
 
 import collections
+import os
 
 from . import genpipe, loader, par, specs, values, wellformed
 
@@ -92,6 +93,7 @@ def adaptor_for(program):
     return values.Adaptor(program.env(), mods)
 
 
+OPTPASS = bool(os.environ.get("VERIF_OPTPASS"))
 _JUDGE = None
 _TIER = None
 _SEED = 0
@@ -109,6 +111,9 @@ def _shard(indices):
             progs.append(p)
             infos.append(info)
         wanted = [(p, i) for p, i in zip(progs, infos) if _JUDGE.wants(i)]
+        if OPTPASS:
+            # the -OO repetition of the quick tier (mc/cli.py) takes the corpus and every second program of the universe
+            wanted = [(p, i) for p, i in wanted if i.index % 2 == 0 or i.ident.startswith("corpus:")]
         if not wanted:
             continue
         loaded = genpipe.load_batch([p for p, _ in wanted])
